@@ -5,6 +5,10 @@ PROPERTIES = {
     "C15": [("chain", 1.0, 400)],
     "C01": [("ec", 1.0, 8)],
     "C02": [("ec", 1.0, 8)],
+    "C04": [("cosign", 1.0, 10)],
+    "C05": [("cosign", 1.0, 10)],
+    "C06": [("cosign", 1.0, 10)],
+    "C07": [("cosign", 0.6, 10), ("wallet", 0.4, 60)],
     "C09": [("hd", 1.0, 20)],
     "C13": [("wallet", 1.0, 60)],
     "C14": [("spv", 1.0, 40)],
